@@ -139,6 +139,68 @@ def job_cap(pi, m, mode):
     return acc
 
 
+REUSE_POOL = [
+    'zzz\n' * 12,
+    '# c\n' + 'zzz\n' * 13,
+    'zzz\nFeature: f\n  Scenario: s\n',
+    'Feature: f\nzzz\n',
+    'Feature: f\n  Scenario: s\n    Given g\n      | a |\n      | b | c |\n  @t\n  zzz\n',
+    'Feature: f\n  Scenario: s\n    Given g\n      | a |\n      | b | c |\n',
+    '  @bad tag\n' * 6,
+    'Feature: f\n  @bad tag\n  Scenario: s\n',
+    '#language: xx\nFeature: f\n',
+    'Feature: f\n  Scenario: s\n    Given g\n      """\n      open\n',
+    'Feature: ok\n  Scenario: s\n    Given g\n',
+    '',
+]
+
+
+@worker
+def job_reuse(first, h):
+    """Rejected documents through ONE parser (as GherkinEvents keeps it), both error modes: each outcome must be what a fresh parser
+    reports - in particular a rejected document is still rejected, with the same errors, whatever was parsed before."""
+    import itertools as it
+    from gherkin.parser import Parser
+    from gherkin.errors import CompositeParserException, ParserException
+    acc = Acc()
+
+    def run_one(p, text, stop):
+        p.stop_at_first_error = stop
+        try:
+            p.parse(I.StringScanner(text))
+            return ('ok',)
+        except CompositeParserException as e:
+            return ('errors', [I.err_tuple(x)[:3] for x in e.errors])
+        except ParserException as e:
+            return ('error1', [I.err_tuple(e)[:3]])
+        except Exception as e:  # noqa: BLE001
+            return ('exc', '%s: %s' % (type(e).__name__, e))
+    fresh = {(i, stop): run_one(Parser(), REUSE_POOL[i], stop) for i in range(len(REUSE_POOL)) for stop in (False, True)}
+    hist = None
+    for n in range(2, h + 1):
+        for rest in it.product(range(len(REUSE_POOL)), repeat=n - 1):
+            hist = (first,) + rest
+            for stops in it.product((False, True), repeat=2):
+                p = Parser()
+                r = None
+                for pos, i in enumerate(hist):
+                    stop = stops[0] if pos < len(hist) - 1 else stops[1]
+                    r = run_one(p, REUSE_POOL[i], stop)
+                acc.n += 1
+                acc.validated += 1
+                acc.nontrivial += 1
+                want = fresh[(hist[-1], stops[1])]
+                acc.outcomes[r[0]] += 1
+                acc.states.add((hist[-1], r[0]))
+                acc.trans.add((hist[-2], hist[-1], stops))
+                if r != want:
+                    acc.violation('reused-parser-errors', {'kind': 'reuse', 'history': list(hist), 'stop': list(stops)},
+                                  'document %d parsed by a parser that parsed %s before: outcome differs from a fresh parser' % (hist[-1], list(hist[:-1])),
+                                  observed=r, expected=want)
+    acc.sample({'history': [REUSE_POOL[i] for i in (hist or (first,))]})
+    return acc
+
+
 def run(ctx):
     probs = R.selftest()
     ctx.selftest(not probs, 'reference pipeline reproduces the acceptance corpus (%s)' % (probs[:3] or 'ok'))
@@ -155,9 +217,14 @@ def run(ctx):
     else:
         jobs = [job_cap.job(pi, m, 'all') for pi in range(len(pre)) for m in (9, 10, 11, 12, 13)]
     ctx.level('error-cap', jobs)
+    h = ctx.pick(2, 3)
+    ctx.level('one parser, histories of rejected documents h<=%d' % h, [job_reuse.job(i, h) for i in range(len(REUSE_POOL))])
 
 
 def replay(case):
     acc = Acc()
+    if case.get('kind') == 'reuse':
+        a = job_reuse(case['history'][0], len(case['history']))
+        return [v[0]['message'] for v in a.viol.values()]
     check_text(case['text'], acc)
     return [v[0]['message'] + ' observed=%r expected=%r' % (v[0].get('observed'), v[0].get('expected')) for v in acc.viol.values()]
